@@ -93,6 +93,11 @@ def check_report(outcome, world_files, dry_run=False, sast_ids=None):
             if not dt or not dt.get("name"):
                 problems.append(("sast-without-detection-tool", {"codemod": cid}))
             for cs in res.get("changeset", []):
+                code_changes = [ch for ch in cs.get("changes", []) if not ch.get("packageActions")]
+                if code_changes and not any(ch.get("findings") for ch in code_changes):
+                    # (dependency-manifest changes carry package actions instead of findings; a codemod may emit several
+                    # change entries for one reported site, so the claim is per changeset, not per entry)
+                    problems.append(("sast-changeset-without-finding", {"codemod": cid, "path": cs.get("path")}))
                 for ch in cs.get("changes", []):
                     for f in ch.get("findings") or []:
                         if not f.get("id") or not (f.get("rule") or {}).get("id") or not (f.get("rule") or {}).get("name"):
